@@ -92,9 +92,12 @@ def case_violation(text, root):
         return ('a later to_dict call modified the dict returned by an earlier one', None)
     if not isinstance(d1, dict) or 'type' not in d1:
         return known
-    # two entry points
+    # two entry points; the dict path runs on a parser object whose previous conversion raised after numbering an attachment
+    # (the contract does not ask for a fresh object)
     try:
-        a = real.canon(real.make_parser().generator.xml_from_dict(json.loads(js), getattr(tree, 'is_root', False)))
+        used = real.make_parser()
+        real.convert('SCHEDULE first\n  P{1a b} x\n', 'act', parser=used)
+        a = real.canon(used.generator.xml_from_dict(json.loads(js), getattr(tree, 'is_root', False)))
         ra = None
     except Exception as ex:  # noqa
         a, ra = None, type(ex).__name__
